@@ -5,6 +5,7 @@ import (
 	"bytes"
 	"context"
 	"fmt"
+	"io"
 	"net"
 	"os"
 	"strconv"
@@ -93,11 +94,12 @@ func (s *sconn) take() []byte {
 }
 
 // runServe:
-//   S <dbs>            fresh server.Manager with <dbs> databases
-//   C <id> <hex>       write the bytes on connection <id> (opened on first use) followed by a sentinel PING, collect everything
-//                      the server wrote up to the sentinel's reply:  => <bytes-hex> <open|closed|timeout>
-//   D <id>             drain: what connection <id> has received since (Pub/Sub pushes):  => <bytes-hex> <open|closed>
-//   K <id>             client closes connection <id>
+//
+//	S <dbs>            fresh server.Manager with <dbs> databases
+//	C <id> <hex>       write the bytes on connection <id> (opened on first use) followed by a sentinel PING, collect everything
+//	                   the server wrote up to the sentinel's reply:  => <bytes-hex> <open|closed|timeout>
+//	D <id>             drain: what connection <id> has received since (Pub/Sub pushes):  => <bytes-hex> <open|closed>
+//	K <id>             client closes connection <id>
 func runServe(args []string) {
 	in := bufio.NewScanner(os.Stdin)
 	in.Buffer(make([]byte, 1<<20), 1<<28)
@@ -156,6 +158,45 @@ func runServe(args []string) {
 				// the sentinel was swallowed by an unfinished frame: the harness gives up on this connection
 				c.cancel()
 				c.c.Close()
+			}
+			fmt.Fprintf(out, "%s => %d %d %s %s\n", line, t0, t1, hx(got), st)
+		case "HC":
+			// HC <id> <hex>: a pipeline on a fresh loopback TCP connection (net.Pipe cannot half-close) whose sending side is closed right after the
+			// last byte, before any reply has been read; the client then reads to the end of the stream.  Reported like a C step.
+			ln, err := net.Listen("tcp", "127.0.0.1:0")
+			if err != nil {
+				panic(err)
+			}
+			go func() {
+				srvc, err := ln.Accept()
+				ln.Close()
+				if err != nil {
+					return
+				}
+				defer func() { recover() }()
+				mgr.Handle(ctx, srvc)
+			}()
+			cc, err := net.Dial("tcp", ln.Addr().String())
+			if err != nil {
+				panic(err)
+			}
+			seq++
+			token := fmt.Sprintf("verif-sentinel-%d", seq)
+			payload := append(unhex(f[2]), []byte(fmt.Sprintf("*2\r\n$4\r\nPING\r\n$%d\r\n%s\r\n", len(token), token))...)
+			t0 := time.Now().Unix()
+			cc.SetDeadline(time.Now().Add(4 * time.Second))
+			cc.Write(payload)
+			cc.(*net.TCPConn).CloseWrite()
+			got, rerr := io.ReadAll(cc)
+			cc.Close()
+			t1 := time.Now().Unix()
+			suffix := []byte(fmt.Sprintf("$%d\r\n%s\r\n", len(token), token))
+			st := "closed"
+			if bytes.HasSuffix(got, suffix) {
+				st = "open"
+				got = got[:len(got)-len(suffix)]
+			} else if rerr != nil {
+				st = "timeout"
 			}
 			fmt.Fprintf(out, "%s => %d %d %s %s\n", line, t0, t1, hx(got), st)
 		case "PAR":
